@@ -21,12 +21,14 @@ def intKOfName? : String → Option IntK
 def tyName : Ty → String
   | .bool => "b" | .int k => intKName k | .f32 => "f32" | .f64 => "f64" | .string => "s" | .struct => "st"
   | .c64 => "c64" | .c128 => "c128" | .array => "ar" | .unsafePtr => "usp"
+  | .named .node => "nd" | .named .err => "er" | .named .bad => "bd"
   | .slice => "sl" | .map => "mp" | .func => "fn" | .chan => "ch" | .ptr t => "p:" ++ tyName t | .any => "any"
   | .maybe t => "M:" ++ tyName t | .someDef t => "some:" ++ tyName t | .noneDef => "noneDef"
 
 /-- type name → type, from the `:`-separated components -/
 def tyOfParts : List String → Option Ty
   | [] => none
+  | ["nd"] => some (.named .node) | ["er"] => some (.named .err) | ["bd"] => some (.named .bad)
   | ["c64"] => some .c64 | ["c128"] => some .c128 | ["ar"] => some .array | ["usp"] => some .unsafePtr
   | ["b"] => some .bool | ["f32"] => some .f32 | ["f64"] => some .f64 | ["s"] => some .string | ["st"] => some .struct
   | ["sl"] => some .slice | ["mp"] => some .map | ["fn"] => some .func | ["ch"] => some .chan | ["any"] => some .any
@@ -116,6 +118,9 @@ def decode : Nat → Heap → String → R (Heap × GoVal)
       | some "f64" => pure (h, .f64 (p.drop 1).toString)
       | some "s" => pure (h, .str (p.drop 1).toString)
       | some "st" => pure (h, .struct p.toInt!)
+      | some "nd" => pure (h, .nstruct .node p.toInt!)
+      | some "er" => pure (h, .nstruct .err p.toInt!)
+      | some "bd" => pure (h, .nstruct .bad p.toInt!)
       | some "c64" => pure (h, .c64 p.toInt!)
       | some "c128" => pure (h, .c128 p.toInt!)
       | some "ar" => pure (h, .array p.toInt!)
@@ -145,6 +150,7 @@ def render (h : Heap) : Nat → GoVal → String
     | .f64 b => "f64:x" ++ b
     | .str hx => "s:x" ++ hx
     | .struct k => "st:" ++ toString k
+    | .nstruct n k => tyName (.named n) ++ ":" ++ toString k
     | .c64 k => "c64:" ++ toString k
     | .c128 k => "c128:" ++ toString k
     | .array k => "ar:" ++ toString k
